@@ -1,4 +1,288 @@
 import ObiVerif.Model.Annotate
+/-!
+# Helper lemmas on the edits of `obiannotate` (C16): association lists, frames
+-/
 namespace ObiVerif.Annotate
 open ObiVerif.Grep
+
+/-! ## association lists -/
+
+theorem lookup_setKey (k k' : String) (v : AVal) (a : List (String × AVal)) :
+    (setKey k v a).lookup k' = if k' = k then some v else a.lookup k' := by
+  induction a with
+  | nil =>
+    unfold setKey
+    by_cases h : k' = k
+    · have hb : (k' == k) = true := by simp [h]
+      simp [List.lookup, hb, h]
+    · have hb : (k' == k) = false := by simp [h]
+      simp [List.lookup, hb, h]
+  | cons x t ih =>
+    obtain ⟨kx, vx⟩ := x
+    unfold setKey
+    by_cases hx : kx = k
+    · subst hx
+      by_cases h : k' = kx
+      · have hb : (k' == kx) = true := by simp [h]
+        simp [List.lookup, hb, h]
+      · have hb : (k' == kx) = false := by simp [h]
+        simp [List.lookup, hb, h]
+    · simp only [hx, if_false]
+      by_cases h' : k' = kx
+      · have hne : k' ≠ k := fun e => hx (h' ▸ e)
+        have hb : (k' == kx) = true := by simp [h']
+        simp [List.lookup, hb, hne]
+      · have hb : (k' == kx) = false := by simp [h']
+        simp only [List.lookup, hb, ih]
+
+theorem lookup_filter_key (p : String → Bool) (k : String) (a : List (String × AVal)) :
+    (a.filter fun kv => p kv.1).lookup k = if p k then a.lookup k else none := by
+  induction a with
+  | nil => simp
+  | cons x t ih =>
+    obtain ⟨kx, vx⟩ := x
+    by_cases hk : k = kx
+    · subst hk
+      cases hp : p k <;> simp [List.filter, hp, List.lookup, ih]
+    · have hb : (k == kx) = false := by simp [hk]
+      cases hp : p kx <;> simp [List.filter, hp, List.lookup, hb, ih]
+
+theorem lookup_delKey (k k' : String) (a : List (String × AVal)) :
+    (delKey k a).lookup k' = if k' = k then none else a.lookup k' := by
+  unfold delKey
+  have := lookup_filter_key (fun x => decide (x ≠ k)) k' a
+  simp only [ne_eq, decide_not] at this ⊢
+  rw [this]
+  by_cases h : k' = k <;> simp [h]
+
+/-! ## chaining -/
+
+theorem foldl_bind_dropped (es : List Edit) :
+    es.foldl (fun acc e => Outcome.bind acc e) Outcome.dropped = Outcome.dropped := by
+  induction es with
+  | nil => rfl
+  | cons e t ih => simpa [Outcome.bind] using ih
+
+theorem foldl_bind_panic (es : List Edit) :
+    es.foldl (fun acc e => Outcome.bind acc e) Outcome.panic = Outcome.panic := by
+  induction es with
+  | nil => rfl
+  | cons e t ih => simpa [Outcome.bind] using ih
+
+/-- `ChainWorkers`: the first worker, then the rest on its result; a failure ends the chain -/
+theorem applyAll_cons (e : Edit) (t : List Edit) (r : Rec) :
+    applyAll (e :: t) r = (e r).bind (applyAll t) := by
+  unfold applyAll
+  rw [List.foldl_cons]
+  show t.foldl (fun acc e => Outcome.bind acc e) (e r) = _
+  cases e r with
+  | ok r1 => rfl
+  | dropped => rw [foldl_bind_dropped]; rfl
+  | panic => rw [foldl_bind_panic]; rfl
+
+theorem applyAll_nil (r : Rec) : applyAll [] r = .ok r := rfl
+
+theorem applyAll_append (a b : List Edit) (r : Rec) :
+    applyAll (a ++ b) r = (applyAll a r).bind (applyAll b) := by
+  induction a generalizing r with
+  | nil => rfl
+  | cons e t ih =>
+    rw [List.cons_append, applyAll_cons, applyAll_cons]
+    cases e r with
+    | ok r1 => simp [Outcome.bind, ih]
+    | dropped => rfl
+    | panic => rfl
+
+theorem bind_ok {x : Outcome} {f : Rec → Outcome} {r' : Rec} (h : x.bind f = .ok r') :
+    ∃ r1, x = .ok r1 ∧ f r1 = .ok r' := by
+  cases x with
+  | ok r1 => exact ⟨r1, rfl, h⟩
+  | dropped => simp [Outcome.bind] at h
+  | panic => simp [Outcome.bind] at h
+
+/-! ## frames: an edit that leaves an observation of the record unchanged -/
+
+def Keeps {α : Type} (obs : Rec → α) (e : Edit) : Prop := ∀ r r', e r = .ok r' → obs r' = obs r
+
+theorem applyAll_keeps {α : Type} (obs : Rec → α) (es : List Edit) (h : ∀ e ∈ es, Keeps obs e) :
+    Keeps obs (applyAll es) := by
+  induction es with
+  | nil => intro r r' hr; simp [applyAll_nil] at hr; rw [hr]
+  | cons e t ih =>
+    intro r r' hr
+    rw [applyAll_cons] at hr
+    obtain ⟨r1, h1, h2⟩ := bind_ok hr
+    have := ih (fun e' he' => h e' (by simp [he'])) r1 r' h2
+    rw [this, h e (by simp) r r1 h1]
+
+theorem foldl_bind_keeps {α β : Type} (obs : Rec → α) (l : List β) (f : β → Edit)
+    (h : ∀ b ∈ l, Keeps obs (f b)) :
+    Keeps obs (fun r => l.foldl (fun acc b => Outcome.bind acc (f b)) (.ok r)) := by
+  have e : ∀ r, l.foldl (fun acc b => Outcome.bind acc (f b)) (.ok r) = applyAll (l.map f) r := by
+    intro r; unfold applyAll; rw [List.foldl_map]
+  intro r r' hr
+  have hr' : l.foldl (fun acc b => Outcome.bind acc (f b)) (.ok r) = .ok r' := hr
+  rw [e] at hr'
+  refine applyAll_keeps obs (l.map f) ?_ r r' hr'
+  exact
+    (by intro e' he'; obtain ⟨b, hb, rfl⟩ := List.mem_map.mp he'; exact h b hb)
+
+/-- what `SetAttribute` does when it succeeds -/
+theorem setAttribute_ok {k : String} {v : AVal} {r r' : Rec} (h : setAttribute k v r = .ok r') :
+    r'.seq = r.seq ∧ (k ≠ "id" → r'.id = r.id ∧ r'.attrs = setKey k v r.attrs) ∧
+    (k = "id" → r'.attrs = r.attrs ∧ v = .str r'.id) := by
+  unfold setAttribute at h
+  by_cases h1 : k = "id"
+  · simp only [h1, if_true] at h
+    cases v <;> simp at h
+    subst h; simp [h1]
+  · by_cases h2 : k = "sequence"
+    · simp [h1, h2] at h
+    · by_cases h3 : k = "qualities"
+      · simp [h1, h2, h3] at h
+      · simp only [h1, h2, h3, if_false, Outcome.ok.injEq] at h
+        subst h; simp [h1]
+
+theorem renameAttribute_ok {new old : String} {r r' : Rec} (h : renameAttribute new old r = .ok r') :
+    r'.seq = r.seq ∧ (new ≠ "id" → r'.id = r.id) ∧
+    ∀ k, k ≠ new → k ≠ old → r'.attrs.lookup k = r.attrs.lookup k := by
+  unfold renameAttribute at h
+  cases hg : getAttribute old r with
+  | none => simp [hg] at h; subst h; simp
+  | some v =>
+    simp only [hg] at h
+    obtain ⟨r1, h1, h2⟩ := bind_ok h
+    simp only [Outcome.ok.injEq] at h2
+    subst h2
+    obtain ⟨hs, hn, hi⟩ := setAttribute_ok h1
+    refine ⟨by simp [deleteAttribute, hs], ?_, ?_⟩
+    · intro hne; simp [deleteAttribute, (hn hne).1]
+    · intro k hk1 hk2
+      simp only [deleteAttribute, lookup_delKey, hk2, if_false]
+      by_cases hid : new = "id"
+      · rw [(hi hid).1]
+      · rw [(hn hid).2, lookup_setKey]; simp [hk1]
+
+theorem mem_ite_singleton {c : Prop} [Decidable c] {e x : Edit} (h : e ∈ (if c then [x] else [])) :
+    c ∧ e = x := by
+  split at h
+  · rename_i hc; exact ⟨hc, by simpa using h⟩
+  · simp at h
+
+theorem foldl_delete (ks : List String) (r : Rec) :
+    (ks.foldl (fun r k => deleteAttribute k r) r).seq = r.seq ∧
+    (ks.foldl (fun r k => deleteAttribute k r) r).id = r.id ∧
+    ∀ k, (ks.foldl (fun r k => deleteAttribute k r) r).attrs.lookup k
+      = if k ∈ ks then none else r.attrs.lookup k := by
+  induction ks generalizing r with
+  | nil => simp
+  | cons a t ih =>
+    obtain ⟨h1, h2, h3⟩ := ih (deleteAttribute a r)
+    rw [List.foldl_cons]
+    refine ⟨h1.trans rfl, h2.trans rfl, ?_⟩
+    intro k
+    rw [h3 k]
+    show (if k ∈ t then none else (delKey a r.attrs).lookup k) = _
+    rw [lookup_delKey]
+    by_cases hk : k = a
+    · simp [hk]
+    · by_cases ht : k ∈ t <;> simp [hk, ht]
+
+/-! ### per-edit frames -/
+
+theorem clearAll_keeps_seq : Keeps (·.seq) clearAll := by
+  intro r r' h; simp [clearAll] at h; subst h; rfl
+theorem clearAll_keeps_id : Keeps (·.id) clearAll := by
+  intro r r' h; simp [clearAll] at h; subst h; rfl
+
+theorem editId_keeps {α : Type} (obs : Rec → α) (O : Oracles) (e : String)
+    (hobs : ∀ r s, obs { r with id := s } = obs r) : Keeps obs (editId O e) := by
+  intro r r' h
+  unfold editId at h
+  cases hv : O.evalExpr e r with
+  | none => simp [hv] at h
+  | some v => simp [hv] at h; subst h; exact hobs r _
+
+theorem deleteAttributes_keeps_seq (ks : List String) : Keeps (·.seq) (deleteAttributes ks) := by
+  intro r r' h; simp [deleteAttributes] at h; subst h; exact (foldl_delete ks r).1
+theorem deleteAttributes_keeps_id (ks : List String) : Keeps (·.id) (deleteAttributes ks) := by
+  intro r r' h; simp [deleteAttributes] at h; subst h; exact (foldl_delete ks r).2.1
+theorem deleteAttributes_lookup (ks : List String) (r r' : Rec) (h : deleteAttributes ks r = .ok r') (k : String) :
+    r'.attrs.lookup k = if k ∈ ks then none else r.attrs.lookup k := by
+  simp [deleteAttributes] at h; subst h; exact (foldl_delete ks r).2.2 k
+
+theorem keepAttributes_keeps_seq (ks : List String) : Keeps (·.seq) (keepAttributes ks) := by
+  intro r r' h; simp [keepAttributes] at h; subst h; rfl
+theorem keepAttributes_keeps_id (ks : List String) : Keeps (·.id) (keepAttributes ks) := by
+  intro r r' h; simp [keepAttributes] at h; subst h; rfl
+theorem keepAttributes_lookup (ks : List String) (r r' : Rec) (h : keepAttributes ks r = .ok r') (k : String) :
+    r'.attrs.lookup k = if k ∈ ks then r.attrs.lookup k else none := by
+  simp [keepAttributes] at h; subst h
+  have := lookup_filter_key (fun x => ks.contains x) k r.attrs
+  simpa using this
+
+theorem renameAttributes_keeps_seq (ps : List (String × String)) : Keeps (·.seq) (renameAttributes ps) :=
+  foldl_bind_keeps (·.seq) ps (fun p => renameAttribute p.1 p.2)
+    (fun _ _ _ _ h => (renameAttribute_ok h).1)
+theorem renameAttributes_keeps_id (ps : List (String × String)) (hp : ∀ p ∈ ps, p.1 ≠ "id") :
+    Keeps (·.id) (renameAttributes ps) :=
+  foldl_bind_keeps (·.id) ps (fun p => renameAttribute p.1 p.2)
+    (fun p hpm _ _ h => (renameAttribute_ok h).2.1 (hp p hpm))
+theorem renameAttributes_keeps_attr (ps : List (String × String)) (k : String)
+    (hp : ∀ p ∈ ps, k ≠ p.1 ∧ k ≠ p.2) : Keeps (fun r => r.attrs.lookup k) (renameAttributes ps) :=
+  foldl_bind_keeps (fun r => r.attrs.lookup k) ps (fun p => renameAttribute p.1 p.2)
+    (fun p hpm _ _ h => (renameAttribute_ok h).2.2 k (hp p hpm).1 (hp p hpm).2)
+
+theorem addSeqLength_keeps_seq : Keeps (·.seq) addSeqLength := by
+  intro r r' h; exact (setAttribute_ok h).1
+theorem addSeqLength_keeps_id : Keeps (·.id) addSeqLength := by
+  intro r r' h; exact ((setAttribute_ok h).2.1 (by decide)).1
+theorem addSeqLength_lookup (r r' : Rec) (h : addSeqLength r = .ok r') (k : String) :
+    r'.attrs.lookup k = if k = "seq_length" then some (.int r.len) else r.attrs.lookup k := by
+  rw [((setAttribute_ok h).2.1 (by decide)).2, lookup_setKey]
+
+theorem editAttribute_ok {O : Oracles} {k e : String} {r r' : Rec} (h : editAttribute O k e r = .ok r') :
+    ∃ v, O.evalExpr e r = some v ∧ setAttribute k v r = .ok r' := by
+  unfold editAttribute at h
+  cases hv : O.evalExpr e r with
+  | none => simp [hv] at h
+  | some v => exact ⟨v, rfl, by simpa [hv] using h⟩
+
+theorem evalAttributes_keeps_seq (O : Oracles) (ps : List (String × String)) :
+    Keeps (·.seq) (evalAttributes O ps) :=
+  foldl_bind_keeps (·.seq) ps (fun p => editAttribute O p.1 p.2)
+    (fun _ _ _ _ h => by obtain ⟨v, _, hs⟩ := editAttribute_ok h; exact (setAttribute_ok hs).1)
+theorem evalAttributes_keeps_id (O : Oracles) (ps : List (String × String)) (hp : ∀ p ∈ ps, p.1 ≠ "id") :
+    Keeps (·.id) (evalAttributes O ps) :=
+  foldl_bind_keeps (·.id) ps (fun p => editAttribute O p.1 p.2)
+    (fun p hpm _ _ h => by obtain ⟨v, _, hs⟩ := editAttribute_ok h; exact ((setAttribute_ok hs).2.1 (hp p hpm)).1)
+theorem evalAttributes_keeps_attr (O : Oracles) (ps : List (String × String)) (k : String)
+    (hp : ∀ p ∈ ps, k ≠ p.1) : Keeps (fun r => r.attrs.lookup k) (evalAttributes O ps) :=
+  foldl_bind_keeps (fun r => r.attrs.lookup k) ps (fun p => editAttribute O p.1 p.2)
+    (fun p hpm r r' h => by
+      obtain ⟨v, _, hs⟩ := editAttribute_ok h
+      obtain ⟨_, hn, hi⟩ := setAttribute_ok hs
+      show r'.attrs.lookup k = r.attrs.lookup k
+      by_cases hid : p.1 = "id"
+      · rw [(hi hid).1]
+      · rw [(hn hid).2, lookup_setKey]; simp [hp p hpm])
+
+theorem subsequence_attrs {f t : Int} {r s : Rec} (h : subsequence f t r = some s) : s.attrs = r.attrs := by
+  unfold subsequence at h
+  split at h; · simp at h
+  split at h; · simp at h
+  split at h; · simp at h
+  split at h; · simp at h
+  simp at h; subst h; rfl
+
+theorem cutSequence_keeps_attrs (a b : Int) : Keeps (·.attrs) (cutSequence a b) := by
+  intro r r' h
+  unfold cutSequence at h
+  split at h
+  · simp at h; subst h; rfl
+  · simp only at h
+    split at h
+    · rename_i s hs; simp at h; subst h; exact subsequence_attrs hs
+    · simp at h
+
 end ObiVerif.Annotate
